@@ -464,3 +464,7 @@ def run(chk):
     c03.rule_start(chk)
     c03.rule_once(chk)
     c06.rule_once(chk)  # a serialized position continued twice duplicates every level below it
+    from . import c08
+    c08.rule_fanout(chk)   # what a destination that accepted every message observes while others fail
+    c08.rule_report(chk)
+    c08.rule_report_logger(chk)
